@@ -6,3 +6,4 @@ pub mod gen;
 pub mod model;
 pub mod doubles;
 pub mod props;
+pub mod real;
